@@ -286,8 +286,28 @@ func (x *Exec) mergeVal(conds []T, vals []Val, hint string) Val {
 			return Opaque{Desc: "slice merge with different backing stores"}
 		}
 		return &res
-	case Ptr:
-		return Opaque{Desc: "pointer merge"}
+	case Ptr, PtrSet:
+		// pointers to modelled math/big values: keep every alternative with its path condition
+		ps := PtrSet{}
+		for i, v := range vals {
+			if sub, isSet := v.(PtrSet); isSet {
+				for k, sp := range sub.Ptrs {
+					ps.Conds = append(ps.Conds, mkAnd(conds[i], sub.Conds[k]))
+					ps.Ptrs = append(ps.Ptrs, sp)
+				}
+				continue
+			}
+			p, ok := v.(Ptr)
+			if !ok || len(p.Path) != 0 || !(strings.HasPrefix(p.Cell.Name, "big_") || (p.Cell.Typ != nil && bigKind(p.Cell.Typ) != "")) {
+				if os.Getenv("GOVC_DEBUG") != "" {
+					fmt.Fprintf(os.Stderr, "pointer merge fails: %T %+v\n", v, v)
+				}
+				return Opaque{Desc: "pointer merge"}
+			}
+			ps.Conds = append(ps.Conds, conds[i])
+			ps.Ptrs = append(ps.Ptrs, p)
+		}
+		return ps
 	case Opaque:
 		if v0.Tag.S != "" {
 			ts := make([]Val, len(vals))
@@ -338,6 +358,17 @@ func valEqual(a, b Val) bool {
 			}
 		}
 		return true
+	case PtrSet:
+		y, ok := b.(PtrSet)
+		if !ok || len(x.Ptrs) != len(y.Ptrs) {
+			return false
+		}
+		for i := range x.Ptrs {
+			if x.Ptrs[i].Cell != y.Ptrs[i].Cell || x.Conds[i].S != y.Conds[i].S {
+				return false
+			}
+		}
+		return true
 	case Opaque:
 		y, ok := b.(Opaque)
 		return ok && x.Tag.S == y.Tag.S && x.Desc == y.Desc
@@ -383,24 +414,34 @@ func (x *Exec) runBlock(b *ssa.BasicBlock) {
 			// deterministic order (cell creation order): the text of the verification conditions, and with
 			// it solver behaviour and the result cache, must not depend on map iteration
 			var mcells []*Cell
-			for c := range states[0].mem {
-				mcells = append(mcells, c)
+			seenCell := map[*Cell]bool{}
+			for _, st := range states {
+				for c := range st.mem {
+					if !seenCell[c] {
+						seenCell[c] = true
+						mcells = append(mcells, c)
+					}
+				}
 			}
 			sort.Slice(mcells, func(i, j int) bool { return mcells[i].ID < mcells[j].ID })
 			for _, c := range mcells {
-				v0 := states[0].mem[c]
-				vals := []Val{v0}
-				ok := true
-				for _, st := range states[1:] {
-					v, has := st.mem[c]
-					if !has {
-						ok = false
+				// a cell created on some of the incoming paths only (a local of a branch, a math/big value
+				// allocated there) cannot be reached on the other paths: its value there is immaterial,
+				// the value of a path that has it stands in
+				var standin Val
+				for _, st := range states {
+					if v, has := st.mem[c]; has {
+						standin = v
 						break
 					}
-					vals = append(vals, v)
 				}
-				if !ok {
-					continue
+				vals := make([]Val, len(states))
+				for k, st := range states {
+					if v, has := st.mem[c]; has {
+						vals[k] = v
+					} else {
+						vals[k] = standin
+					}
 				}
 				x.cur.mem[c] = x.mergeVal(conds, vals, "m_"+c.Name)
 			}
@@ -1150,6 +1191,23 @@ func (x *Exec) binop(i *ssa.BinOp) Val {
 		}
 		panic(unsupported("string operator " + i.Op.String()))
 	}
+	// pointer compared with nil: pointers handled by the generator are addresses of cells (parameters are
+	// assumed non-nil, allocations are non-nil)
+	isPtr := func(v Val) bool {
+		switch v.(type) {
+		case Ptr, PtrSet:
+			return true
+		}
+		return false
+	}
+	isNilConst := func(v ssa.Value) bool {
+		c, ok := v.(*ssa.Const)
+		return ok && c.Value == nil
+	}
+	if (i.Op == token.EQL || i.Op == token.NEQ) && ((isPtr(a) && isNilConst(i.Y)) || (isPtr(b) && isNilConst(i.X))) {
+		x.w.noteTrusted(x.name+" pointer parameter", "assumed non-nil")
+		return Leaf{T: boolT(i.Op == token.NEQ)}
+	}
 	if oa, ok := a.(Opaque); ok {
 		ob, ok2 := b.(Opaque)
 		if ok2 && oa.Tag.S != "" && ob.Tag.S != "" && (i.Op == token.EQL || i.Op == token.NEQ) {
@@ -1395,6 +1453,26 @@ func (x *Exec) doReturn(r *ssa.Return) {
 	if x.contract.HasPanics {
 		t := x.evalBool(x.contract.Panics, env)
 		x.oblige(fmt.Sprintf("nopanic/%s", site), "panics-iff", x.curPC, mkNot(t), "normal return implies not panics-condition: "+x.contract.Panics.Text, pos)
+	}
+	// a contract whose scope ends at a limit says nothing about inputs that go beyond it; a return that
+	// is reached inside the scope must therefore be one the contract speaks about: the guard of at
+	// least one postcondition holds (otherwise a shortcut taken for the wrong inputs would go unnoticed)
+	if len(x.contract.Limits) > 0 && len(x.contract.Ensures) > 0 {
+		var guards []T
+		for _, c := range x.contract.Ensures {
+			if b, ok := c.E.(*EBin); ok && b.Op == "==>" {
+				g, err := x.tryEvalBool(&Clause{Text: c.Text, E: b.L, Line: c.Line}, env)
+				if err != nil {
+					guards = []T{tTrue}
+					break
+				}
+				guards = append(guards, g)
+			} else {
+				guards = []T{tTrue}
+				break
+			}
+		}
+		x.oblige(fmt.Sprintf("return-covered/%s", site), "ensures", x.curPC, mkOr(guards...), "a return inside the contract's scope satisfies the guard of some postcondition", pos)
 	}
 	// cover: this return is reachable
 	if !x.waived("cover", pos) {
